@@ -125,6 +125,18 @@ func runKeys(w *World, p map[string]int, prop string) {
 		// (the right passphrase followed by NUL bytes: the key-derivation's HMAC
 		// pads short keys with zeros, so this candidate derives the same key)
 		c := []string{"", "a", ws.Pass + "1", ws.Pass[1:], strings.ToUpper(ws.Pass), "wrongPass123", string([]byte{0xff, 0x00, 0x41, 0x42, 0x43, 0x44}), PubPass, strings.Repeat("z", 41), ws.Pass + "\x00", ws.Pass + "\x00\x00\x00"}
+		// near misses: only the last character differs, or the tail beyond some
+		// prefix (a check that looks at a prefix, or at a truncated copy, takes them)
+		if n := len(ws.Pass); n > 1 {
+			last := byte('x')
+			if ws.Pass[n-1] == 'x' {
+				last = 'y'
+			}
+			c = append(c, ws.Pass[:n-1]+string(last), ws.Pass[:n-1])
+			if n > 33 {
+				c = append(c, ws.Pass[:32]+strings.Repeat("Q", n-32), ws.Pass[:32])
+			}
+		}
 		return c[t.Int(len(c))]
 	}
 	// checkSecrets scans everything ever written by every instance.
@@ -312,7 +324,12 @@ func runKeys(w *World, p map[string]int, prop string) {
 				zeroLead = 1 + t.Int(4)
 				w.Crypto.ZeroPrefix = zeroLead
 			}
-			ws, err := inst.CreateWallet(fmt.Sprintf("Priv%dpass#", len(kws)), bits, true)
+			// passphrases of every legal length, up to the maximum of 40
+			passw := fmt.Sprintf("Priv%dpass#", len(kws))
+			if t.Bool(35) {
+				passw += strings.Repeat("Lng9", 8)[:23+t.Int(8)]
+			}
+			ws, err := inst.CreateWallet(passw, bits, true)
 			w.Crypto.ZeroPrefix = 0
 			if err != nil {
 				w.Violate(prop+".create-failed", "CreateWallet(%d bits): %v", bits, err)
